@@ -619,7 +619,7 @@ class C11(C.Check):
         "the oracle evaluates these expectations numerically on the implementation (series / quad / Gauss-Hermite)",
     ]
     assumptions = [
-        "Poisson mean E[d] = x; Gamma(alpha+1, scale x) mean E[beta] = (alpha+1) x; residual moments E[r] = 0, E[r^2] = 1/i per real component "
+        "Gamma(alpha+1, scale x) mean E[beta] = (alpha+1) x; residual moments E[r] = 0, E[r^2] = 1/i per real component "
         "(consistent: C11_expectation_satisfiable)",
         "linearity of expectation on polynomials of degree <= 2 in the datum (Model.expectation)",
         "float64 rounding is outside the theorems; tolerances 1e-10 (correspondence), 1e-9 (dense identities), 1e-6 (quadrature / finite differences)",
